@@ -12,7 +12,10 @@ Case kinds (same JSON goes to `lean/Drivers/Formula.lean`):
                                                              then HigherOrderFormulaBuilder.build(nones_are_zeros=z).
              "tree" is the expression as written (a value); "prog" (optional) says how it is written in Python with
              builder OBJECTS bound to variables and reused: [{"let": node} | {"drop": node} …, {"ret": node}], where a node
-             may be {"var": k} (the k-th let) wherever a builder may stand; "drop" = an operation whose result is thrown away.
+             may be {"var": k} (the k-th let) wherever a builder may stand; "drop" = an operation whose result is thrown away;
+             {"build": node[, "z": bool][, "judge": true]} = `.build(...)` is called on that builder at this point of the
+             program (a build HISTORY); the engine that is fed and judged is the one returned by the statement marked
+             "judge" (else by the final "ret"), and "tree" is the expression of THAT builder.
 Optional "backlog": {"<id>": [[ts, value], ...]} (string / run kinds): samples OLDER than the first round that already
 wait in the input streams when the engine starts (streams whose source started earlier); the engine must drop them while
 it synchronises, so the expected output is still one sample per round.  The Lean driver ignores the key.
@@ -431,13 +434,14 @@ def ho_expand(node: dict, defs: list[dict]) -> dict:
 
 
 def ho_prog_tree(prog: list[dict]) -> dict:
+    """The expression of the JUDGED build: the statement {"build": node, "judge": true}, else the final {"ret": node}."""
     defs: list[dict] = []
     for st in prog:
         if "let" in st:
             defs.append(ho_expand(st["let"], defs))
-        elif "ret" in st:
-            return ho_expand(st["ret"], defs)
-    raise ValueError("prog without ret")
+        elif "ret" in st or ("build" in st and st.get("judge")):
+            return ho_expand(st.get("ret") or st["build"], defs)
+    raise ValueError("prog without ret / judged build")
 
 
 def gen_ho_prog(rng: random.Random, engines: list[int], depth: int) -> list[dict]:
@@ -697,6 +701,93 @@ def backlog_cases(ctx, n: int) -> list[dict]:
             backlog[str(x)] = [[t, val(x, t)] for t in range(start - 1, start)]
         rounds = [{"ts": t, "env": {str(x): val(x, t) for x in ids}} for t in range(start, start + rng.randint(2, 4))]
         cases.append({"kind": "string", "s": s, "z": rng.random() < 0.3, "zids": [], "rounds": rounds, "backlog": backlog})
+    return cases
+
+
+def _history_case(prog: list[dict], z: bool, gen) -> dict:
+    return {"kind": "ho", "z": z, "rounds": None, "_gen": gen, "prog": prog, "tree": ho_prog_tree(prog)}
+
+
+def build_history_cases(ctx, n: int) -> list[dict]:
+    """Builder objects that are BUILT at some point of the program and then composed further and built again: every
+    operator and method with the built builder as left and as right operand, several levels, the same builder built
+    twice, the derived builder built before its original.  The judged engine is the one a marked `build` returned; its
+    output must be the value of the expression of the builder it was built from (not of any other build)."""
+    cases = []
+    k = 0
+
+    def gen(tag):
+        nonlocal k
+        k += 1
+        return (f"{ctx.prop}/{ctx.seed}/history/{tag}/{k}", 3, 0.05)
+
+    x0 = {"b": {"start": 1}, "o": "+", "eng": 2}
+    for z in (False, True):
+        for op in BIN_API:
+            c = {"const": "2"} if op in "*/" else {"const": "3"}
+            # x built, then used as left operand (engine / constant / builder on the right) and built again
+            for rhs in ({"eng": 3}, c, {"r": {"b": {"start": 3}, "o": "-", "eng": 1}}):
+                cases.append(_history_case([{"let": x0}, {"build": {"var": 0}}, {"ret": {"b": {"var": 0}, "o": op, **rhs}}], z, gen("l")))
+            # x built, then used as RIGHT operand
+            cases.append(_history_case([{"let": x0}, {"build": {"var": 0}},
+                                        {"ret": {"b": {"b": {"start": 3}, "o": "*", "const": "2"}, "o": op, "r": {"var": 0}}}], z, gen("r")))
+            # two levels: x built, y = x <op> e3 built, z = y - x judged
+            cases.append(_history_case([{"let": x0}, {"build": {"var": 0}}, {"let": {"b": {"var": 0}, "o": op, "eng": 3}},
+                                        {"build": {"var": 1}}, {"ret": {"b": {"var": 1}, "o": "-", "r": {"var": 0}}}], z, gen("2")))
+            # the derived builder is built BEFORE the original; the original is judged
+            cases.append(_history_case([{"let": x0}, {"let": {"b": {"var": 0}, "o": op, "eng": 3}}, {"build": {"var": 1}},
+                                        {"build": {"var": 0}, "judge": True}], z, gen("d")))
+            # the intermediate build is the judged one, the program goes on afterwards
+            cases.append(_history_case([{"let": x0}, {"build": {"var": 0}}, {"let": {"b": {"var": 0}, "o": op, "eng": 3}},
+                                        {"build": {"var": 1}, "judge": True}, {"let": {"b": {"var": 1}, "o": "+", "eng": 1}},
+                                        {"build": {"var": 2}}], z, gen("m")))
+        for un in UN_API:
+            cases.append(_history_case([{"let": x0}, {"build": {"var": 0}}, {"ret": {"b": {"var": 0}, "un": un}}], z, gen("u")))
+            cases.append(_history_case([{"let": {"b": x0, "un": un}}, {"build": {"var": 0}},
+                                        {"ret": {"b": {"var": 0}, "o": "-", "eng": 3}}], z, gen("u2")))
+        # the same builder built twice (second engine judged), with a different flag in between
+        cases.append(_history_case([{"let": x0}, {"build": {"var": 0}, "z": not z}, {"build": {"var": 0}, "judge": True}], z, gen("t")))
+        cases.append(_history_case([{"let": x0}, {"build": {"var": 0}}, {"build": {"var": 0}}, {"ret": {"b": {"var": 0}, "o": "*", "const": "2"}}],
+                                   z, gen("t2")))
+    for i in range(n):
+        rng = ctx.subrng("history", i)
+        engines = rng.sample([1, 2, 3, 4, 5], rng.randint(2, 4))
+        prog: list[dict] = [{"let": gen_ho(rng, engines, rng.choice([0, 1]))}]
+        nv = 1
+        builds = []
+        for _ in range(rng.randint(2, 5)):
+            r = rng.random()
+            if r < 0.45:
+                prog.append({"build": {"var": rng.randrange(nv)}, "z": rng.random() < 0.3})
+                builds.append(len(prog) - 1)
+            else:
+                src = {"var": rng.randrange(nv)}
+                if rng.random() < 0.15:
+                    node = {"b": src, "un": rng.choice(UN_API)}
+                else:
+                    op = rng.choice(BIN_API)
+                    q = rng.random()
+                    if q < 0.35:
+                        node = {"b": src, "o": op, "eng": rng.choice(engines)}
+                    elif q < 0.5:
+                        node = {"b": src, "o": op, "const": rat(Fraction(rng.choice([1, 2, -2, 4, Fraction(1, 2)])))}
+                    elif q < 0.8:
+                        node = {"b": src, "o": op, "r": {"var": rng.randrange(nv)}}
+                    else:
+                        node = {"b": gen_ho(rng, engines, 0), "o": op, "r": src}
+                prog.append({"let": node})
+                nv += 1
+        if not builds:
+            prog.insert(1, {"build": {"var": 0}})
+            builds.append(1)
+        if rng.random() < 0.6:
+            prog.append({"ret": {"var": nv - 1}} if rng.random() < 0.5 else
+                        {"ret": {"b": {"var": rng.randrange(nv)}, "o": rng.choice(BIN_API), "r": {"var": rng.randrange(nv)}}})
+        else:
+            j = rng.choice(builds)
+            prog[j] = dict(prog[j], judge=True)
+            prog[j].pop("z", None)
+        cases.append(_history_case(prog, rng.random() < 0.3, (f"{ctx.prop}/{ctx.seed}/history/rnd/{i}", rng.randint(3, 4), 0.06)))
     return cases
 
 
@@ -1013,7 +1104,8 @@ async def real_ho(case: dict) -> dict:
     all_ids = set(ids)
     for st in case.get("prog") or []:
         for node in st.values():
-            all_ids |= _ho_engines(node)
+            if isinstance(node, dict):
+                all_ids |= _ho_engines(node)
     chans = {i: r["Broadcast"](name=f"in{i}") for i in sorted(all_ids)}
     engines = {}
     for i in sorted(all_ids):
@@ -1026,17 +1118,29 @@ async def real_ho(case: dict) -> dict:
             raise AssertionError("harness: prog and tree of the case disagree")
         variables: list = []
         hob = None
-        for st in case["prog"]:
+        judged = None
+        for k, st in enumerate(case["prog"]):
             if "let" in st:
                 variables.append(_ho_apply(st["let"], engines, variables))
             elif "drop" in st:
                 _ho_apply(st["drop"], engines, variables)
+            elif "build" in st:
+                b = _ho_apply(st["build"], engines, variables)
+                if st.get("judge"):
+                    judged = ([_ho_tok_repr(t, v) for t, v in b._steps],  # pylint: disable=protected-access
+                              b.build(f"l2-{k}", nones_are_zeros=z))
+                else:
+                    b.build(f"l2-{k}", nones_are_zeros=st.get("z", z))    # built, never started
             else:
                 hob = _ho_apply(st["ret"], engines, variables)
     else:
+        judged = None
         hob = _ho_apply(tree, engines)
-    toks = [_ho_tok_repr(t, v) for t, v in hob._steps]  # pylint: disable=protected-access
-    engine = hob.build("l2", nones_are_zeros=z)
+    if judged is not None:
+        toks, engine = judged
+    else:
+        toks = [_ho_tok_repr(t, v) for t, v in hob._steps]  # pylint: disable=protected-access
+        engine = hob.build("l2", nones_are_zeros=z)
     steps = [step_repr(x) for x in engine._builder._steps]  # pylint: disable=protected-access
     rounds = _fill_rounds(case, steps, ids)
     rx = engine.new_receiver()
@@ -1148,6 +1252,8 @@ def case_tags(case: dict, a: Any | None) -> tuple[list[str], bool]:
                 tags.append("per-id-flags")
         if case.get("prog"):
             tags.append("builder-reuse")
+            if any("build" in st for st in case["prog"]):
+                tags.append("build-history")
         if any(o in ops for o in ("max", "min")):
             tags.append("minmax")
         if any(o in ops for o in UN_API):
